@@ -82,6 +82,9 @@ def metadata_response(corr, brokers, topics):
     b += struct.pack(">i", len(topics))
     leader = brokers[0][0] if brokers else -1
     for t in topics:
+        if t >= 4:        # abstract topic ids >= 4: a topic in error (LEADER_NOT_AVAILABLE) without partitions
+            b += struct.pack(">h", 5) + _s16("t%d" % t) + struct.pack(">i", 0)
+            continue
         b += struct.pack(">h", 0) + _s16("t%d" % t) + struct.pack(">i", 1)
         reps = [leader] if leader >= 0 else []
         b += struct.pack(">hiii", 0, 0, leader, len(reps)) + b"".join(struct.pack(">i", x) for x in reps)
@@ -374,6 +377,8 @@ class Impl(object):
                 self.log.append(("res", what, idx, 9 if is_load else 2, None))
             elif result is True:
                 self.log.append(("res", what, idx, 8, None))
+            elif isinstance(result, dict):
+                self.log.append(("res", what, idx, 11, None))
             else:
                 self.log.append(("res", what, idx, 99, None))
 
@@ -516,6 +521,10 @@ class Impl(object):
                 d = c.load_metadata_for_topics(*([] if al else ["t0"]))
                 rid = c.correlation_id
                 self.rid_kind[rid] = "meta"
+            elif kind == 2:
+                d = c._load_topic_partitions("t0")
+                rid = c.correlation_id
+                self.rid_kind[rid] = "meta"
             else:
                 rid = c._next_id()
                 self.rid_kind[rid] = "raw"
@@ -547,6 +556,8 @@ class Impl(object):
             self.bc_transport(ev[1]).deliver(simnet.frame(self.response_bytes(ev[2], ev[3])))
         elif k == "timer":
             self.clock.fire_next()
+            if any(kd == 2 for kd, _r in self.ops):       # a retry of _load_topic_partitions takes a fresh correlation id
+                self.rid_kind.setdefault(c.correlation_id, "meta")
         elif k == "bootok":
             self.boots[ev[1]].accept()
         elif k == "bootfail":
@@ -683,6 +694,10 @@ PROFILES = {
 }
 
 
+OP_KINDS = [0, 1, 1, 1, 2, 2] # kinds of broker-agnostic operations the generator issues (2 = _load_topic_partitions)
+BAD_TOPICS = True             # metadata responses may name topics in error / without partitions (abstract ids >= 4)
+
+
 class Gen(object):
     def __init__(self, rnd, profile="c11", length=40, cfg=None, close_at=None):
         self.rnd, self.w, self.length = rnd, PROFILES[profile], length
@@ -716,6 +731,9 @@ class Gen(object):
         rnd = self.rnd
         bs = self.some_brokers()
         ts = rnd.sample(range(4), rnd.choice([0, 1, 1, 2]))
+        if BAD_TOPICS and rnd.random() < 0.3:
+            ts.append(rnd.randrange(4, 8))      # a topic in error / without partitions: _load_topic_partitions retries
+            rnd.shuffle(ts)
         return meta_payload(bs, ts), bs
 
     def payload_for(self, rid):
@@ -789,7 +807,7 @@ class Gen(object):
             self.h("resend_same_id")
             return ("resend", d0, rnd.random() >= 0.1, rnd.choice([-1, -1, -1, 1000, 30000]))
         if k == "op":
-            return ("op", rnd.choice([0, 1, 1, 1]), rnd.random() < 0.5)
+            return ("op", rnd.choice(OP_KINDS), rnd.random() < 0.5)
         if k == "update":
             live = [i for i in range(len(im.bcs)) if im.bc_transport(i) is not None]
             if self.known and live and rnd.random() < 0.45:
@@ -879,7 +897,7 @@ class Gen(object):
                 self.known[n] = a
         if ev[0] in ("reply", "bootreply") and rec["enabled"]:
             pm = parse_meta_payload(list(ev[3])) if self.im.rid_kind.get(ev[2]) == "meta" else None
-            if pm and any(o[0] == "opres" and o[2] == 8 for o in rec["outs"]):
+            if pm and any((o[0] == "opres" and o[2] in (8, 11)) or (o[0] == "sched" and o[2] == 1) for o in rec["outs"]):
                 for n, a in pm[0]:
                     self.known[n] = a
         if ev[0] == "reply" and rec["enabled"]:
@@ -1085,7 +1103,7 @@ def monitor(cfg, records, which=("C11", "C20")):
         # ---- a reply that matches nothing unanswered changes nothing
         if k == "reply" and c11:
             rid = ev[2]
-            if not any(o[0] in ("req", "opres") for o in outs) and outs:
+            if not any(o[0] in ("req", "opres") or (o[0] == "sched" and o[2] == 1) for o in outs) and outs:      # sched kind 1: _load_topic_partitions goes into its retry back-off
                 B("C11_late_reply_inert", "reply with id %d completed nothing and produced %r" % (rid, outs))
         # ---- close
         if k == "close" and not was_closed and not any(o[0] == "raised" for o in outs):
